@@ -96,23 +96,24 @@ type SmtFun struct {
 }
 
 type Contracts struct {
-	Funcs   map[string]*FuncContract // key: kind-independent full name, e.g. "rare/pkg/readahead.(*ImmediateReadAhead).Scan", "bytes.IndexByte"
-	Preds   map[string]*PredDef
-	Ghosts  map[string]*GhostDef
-	Lemmas  []*Lemma
-	SmtRaw  []string
-	SmtFuns map[string]*SmtFun
-	Files   []string
-	NonNil  map[string]bool // named types whose values are assumed non-nil (listed assumption)
+	Funcs     map[string]*FuncContract // key: kind-independent full name, e.g. "rare/pkg/readahead.(*ImmediateReadAhead).Scan", "bytes.IndexByte"
+	Preds     map[string]*PredDef
+	Ghosts    map[string]*GhostDef
+	Lemmas    []*Lemma
+	SmtRaw    []string
+	SmtFuns   map[string]*SmtFun
+	Files     []string
+	NonNil    map[string]bool      // named types whose values are assumed non-nil (listed assumption)
+	GlobalInv map[string][]*Clause // package path -> invariants over init-only package variables
 }
 
 func NewContracts() *Contracts {
-	return &Contracts{Funcs: map[string]*FuncContract{}, Preds: map[string]*PredDef{}, Ghosts: map[string]*GhostDef{}, SmtFuns: map[string]*SmtFun{}, NonNil: map[string]bool{}}
+	return &Contracts{Funcs: map[string]*FuncContract{}, Preds: map[string]*PredDef{}, Ghosts: map[string]*GhostDef{}, SmtFuns: map[string]*SmtFun{}, NonNil: map[string]bool{}, GlobalInv: map[string][]*Clause{}}
 }
 
 var clauseKeywords = map[string]bool{"func": true, "extern": true, "functype": true, "iface": true, "params": true, "results": true,
 	"requires": true, "ensures": true, "modifies": true, "loop": true, "pure": true, "trusted": true, "noinline": true, "panics": true,
-	"pred": true, "ghost": true, "smt": true, "lemma": true, "assume": true, "end": true, "nonnil": true}
+	"pred": true, "ghost": true, "smt": true, "lemma": true, "assume": true, "end": true, "nonnil": true, "globalinv": true}
 
 func firstWord(s string) string {
 	s = strings.TrimSpace(s)
@@ -361,6 +362,12 @@ func (cs *Contracts) LoadContractFile(path, pkgPath string) error {
 			cs.Lemmas = append(cs.Lemmas, &Lemma{Name: strings.TrimSpace(c.text[:i]), C: k, Assume: c.kw == "assume", Pkg: pkgPath})
 		case "nonnil":
 			cs.NonNil[strings.TrimSpace(c.text)] = true
+		case "globalinv":
+			k, err := mkClause(c.text, c.no)
+			if err != nil {
+				return err
+			}
+			cs.GlobalInv[pkgPath] = append(cs.GlobalInv[pkgPath], k)
 		case "end":
 		}
 	}
